@@ -296,6 +296,12 @@ func (tb *termTable) app(op termOp, w uint8, a, b, c *term) *term {
 		return tb.mk(opConst, w, nil, nil, nil, evalOp(op, w, a.k, bv, cv, a.w)&mask(wOr1(w)))
 	}
 	switch op {
+	case opURem, opSRem:
+		// 0 rem x = 0 for every x (SMT-LIB: bvurem s 0 = s), which spares the
+		// solver a 64-bit remainder it is slow on
+		if a.isConst() && a.k == 0 {
+			return a
+		}
 	case opNot:
 		if a.op == opNot {
 			return a.a
